@@ -15,7 +15,9 @@
      to one finalize command.
 
    The audit fact semantics (`Apply`) is the harness policy's: every accepted command
-   appends itself to `seq`; ops s/d/x set / delete / set-if-absent the key "k", `x` being
+   appends itself to `seq` (except quiet commands, op q, which write nothing — segments whose
+   prefix writes no facts take a shortcut in the storage); ops s/d/x set / delete /
+   set-if-absent the key "k", `x` being
    *rejected* (no write at all) when the key is present — the realistic "rejected in braid"
    case.                                                                                  *)
 EXTENDS Naturals, Sequences, FiniteSets, TLC
@@ -116,7 +118,8 @@ OrderAt(c) == IF Par(c) = <<>> THEN <<c>>
    last set it.  `Apply` returns the unchanged state when the command is rejected.          *)
 EmptyFacts == [seq |-> <<>>, k |-> 0]
 ApplyOp(f, c, o) ==
-  IF o = "x" /\ f.k # 0 THEN f
+  IF o = "q" THEN f                       \* quiet command: accepted, writes no fact at all
+  ELSE IF o = "x" /\ f.k # 0 THEN f
   ELSE [seq |-> Append(f.seq, c),
         k   |-> CASE o = "s" -> c [] o = "x" -> c [] o = "d" -> 0 [] OTHER -> f.k]
 Rejects(f, c) == dag[c].op = "x" /\ f.k # 0
